@@ -1,56 +1,84 @@
 #!/usr/bin/env python3
-"""seed_regress.py [ID-substring ...] — re-apply every stored seeded change (/verif/seeded/*/patch.diff) to /repo,
-run the quick check of its property, undo it straight afterwards, and report detected / missed / stale."""
+"""seed_regress.py [--lanes=N] [ID-substring ...] — re-apply every stored seeded change (/verif/seeded/*/patch.diff)
+to a scratch worktree of /repo's HEAD (never /repo itself), run the quick check of its property against that tree
+(HUGR_SRC / HUGR_REPO / VERIF_SCRATCH point the check at the scratch tree and at scratch output directories), and
+report detected / missed / stale.  meta.json of each change is updated with the latest result.  The scratch worktrees
+and output directories are removed at the end."""
 import glob
 import json
 import os
+import shutil
 import subprocess
 import sys
+from concurrent.futures import ThreadPoolExecutor
 
 VERIF = "/verif"
 
 
-def sh(cmd, cwd=None, timeout=1800):
-    p = subprocess.run(cmd, shell=True, cwd=cwd, capture_output=True, text=True, timeout=timeout)
+def sh(cmd, cwd=None, timeout=3600, env=None):
+    p = subprocess.run(cmd, shell=True, cwd=cwd, capture_output=True, text=True, timeout=timeout, env=env)
     return p.returncode, p.stdout + p.stderr
 
 
+def lane_run(lane, sids, workers):
+    wt, out = f"/tmp/regress-wt-{lane}", f"/tmp/regress-out-{lane}"
+    sh(f"git -C /repo worktree remove --force {wt}")
+    shutil.rmtree(out, ignore_errors=True)
+    rc, o = sh(f"git -C /repo worktree add -q --detach {wt} HEAD")
+    if rc != 0:
+        return [(s, "stale", 2, [o[:200]]) for s in sids]
+    env = dict(os.environ, HUGR_SRC=f"{wt}/hugr-py/src", HUGR_REPO=wt, VERIF_SCRATCH=out, VERIF_WORKERS=str(workers))
+    res = []
+    try:
+        for sid in sids:
+            d = f"{VERIF}/seeded/{sid}/"
+            meta = json.load(open(d + "meta.json"))
+            prop = meta["property"]
+            rc, o = sh(f"git -C {wt} apply {d}patch.diff")
+            if rc != 0:
+                rc, o = sh(f"git -C {wt} apply --3way {d}patch.diff")
+                if rc != 0 or "<<<<<<<" in sh(f"git -C {wt} diff")[1]:
+                    sh(f"git -C {wt} reset -q --hard HEAD")
+                    res.append((sid, "stale", 2, []))
+                    print(f"{sid}: STALE (patch no longer applies)", flush=True)
+                    continue
+                rcd, newdiff = sh(f"git -C {wt} diff --cached")
+                if newdiff.strip():
+                    open(d + "patch.diff", "w").write(newdiff)  # keep the stored patch applicable to the current base
+                    print(f"{sid}: stored patch rebased onto the current /repo head", flush=True)
+                sh(f"git -C {wt} reset -q")
+            try:
+                rcc, oc = sh(f"./check {prop}", cwd=VERIF, env=env)
+            finally:
+                sh(f"git -C {wt} checkout -- .")
+            keys = [l.split()[1] for l in oc.splitlines() if l.strip().startswith("violation ")]
+            k = "detected" if rcc == 1 else "missed"
+            meta.setdefault("results", {})[prop] = {"rc": rcc, "violations": keys}
+            meta["detected_by"] = sorted(p for p, r in meta["results"].items() if r["rc"] == 1)
+            json.dump(meta, open(d + "meta.json", "w"), indent=1)
+            res.append((sid, k, rcc, keys))
+            print(f"{sid}: {k.upper()} rc={rcc} {keys[:2]}", flush=True)
+    finally:
+        sh(f"git -C /repo worktree remove --force {wt}")
+        sh("git -C /repo worktree prune")
+        shutil.rmtree(out, ignore_errors=True)
+    return res
+
+
 def main():
-    only = sys.argv[1:]
-    rc, o = sh("git -C /repo status --short --untracked-files=no")
-    if o.strip():
-        print("refusing: /repo has uncommitted changes")
-        return 2
+    args = sys.argv[1:]
+    lanes = next((int(a.split("=")[1]) for a in args if a.startswith("--lanes=")), 1)
+    only = [a for a in args if not a.startswith("--")]
+    sids = [os.path.basename(d.rstrip("/")) for d in sorted(glob.glob(f"{VERIF}/seeded/*/"))]
+    sids = [s for s in sids if not only or any(x in s for x in only)]
+    workers = max(2, (os.cpu_count() or 4) // lanes)
+    with ThreadPoolExecutor(lanes) as ex:
+        parts = list(ex.map(lambda i: lane_run(i, sids[i::lanes], workers), range(lanes)))
     res = {"detected": [], "missed": [], "stale": []}
-    for d in sorted(glob.glob(f"{VERIF}/seeded/*/")):
-        sid = os.path.basename(d.rstrip("/"))
-        if only and not any(x in sid for x in only):
-            continue
-        meta = json.load(open(d + "meta.json"))
-        prop = meta["property"]
-        rc, o = sh(f"git -C /repo apply {d}patch.diff")
-        if rc != 0:
-            rc, o = sh(f"git -C /repo apply --3way {d}patch.diff")
-            if rc != 0 or "<<<<<<<" in sh("git -C /repo diff")[1]:
-                sh("git -C /repo reset -q --hard HEAD")
-                res["stale"].append(sid)
-                print(f"{sid}: STALE (patch no longer applies)", flush=True)
-                continue
-            rcd, newdiff = sh("git -C /repo diff --cached")
-            if newdiff.strip():
-                open(d + "patch.diff", "w").write(newdiff)  # keep the stored patch applicable to the current base
-                print(f"{sid}: stored patch rebased onto the current /repo head", flush=True)
-            sh("git -C /repo reset -q")  # keep the working tree change, unstage
-        try:
-            rcc, oc = sh(f"./check {prop}", cwd=VERIF)
-        finally:
-            sh("git -C /repo checkout -- .")
-            sh(f"rm -f {VERIF}/replays/*.json")
-        keys = [l.split()[1] for l in oc.splitlines() if l.strip().startswith("violation ")]
-        k = "detected" if rcc == 1 else "missed"
-        res[k].append(sid)
-        print(f"{sid}: {k.upper()} rc={rcc} {keys[:2]}", flush=True)
-    print(json.dumps({k: len(v) for k, v in res.items()}), "missed:", res["missed"], "stale:", res["stale"])
+    for part in parts:
+        for sid, k, _, _ in part:
+            res[k].append(sid)
+    print(json.dumps({k: len(v) for k, v in res.items()}), "missed:", sorted(res["missed"]), "stale:", sorted(res["stale"]))
     return 1 if res["missed"] or res["stale"] else 0
 
 
